@@ -1641,3 +1641,172 @@ Proof.
       * intros k E. assert (K1 : (k < n)%nat) by (rewrite <- Hp; apply nth_error_Some; congruence).
         rewrite (ID k K1) in E. injection E as E'. lia.
 Qed.
+
+(* ================================================================ the in-repository part of the Rachford-Rice solver *)
+
+Lemma rr_solve_cases root zs Ks za zb :
+  rr_solve root zs Ks za zb = 0 \/ rr_solve root zs Ks za zb = 1 \/ rr_solve root zs Ks za zb = root.
+Proof.
+  unfold rr_solve.
+  repeat match goal with |- context [if ?b then _ else _] => destruct b end; auto.
+Qed.
+
+(* which early exit fired *)
+Lemma rr_solve_exit0 root zs Ks za zb :
+  all_le Ks one_plus = true -> za == 0 -> rr_solve root zs Ks za zb = 0.
+Proof.
+  intros A Z. unfold rr_solve. rewrite A. apply qzerob_true in Z. rewrite Z. reflexivity.
+Qed.
+
+Lemma rr_solve_exit1 root zs Ks za zb :
+  (all_le Ks one_plus && qzerob za)%bool = false -> all_ge Ks one_minus = true -> zb == 0 ->
+  rr_solve root zs Ks za zb = 1.
+Proof.
+  intros N A Z. unfold rr_solve. rewrite N, A. apply qzerob_true in Z. rewrite Z. reflexivity.
+Qed.
+
+(* the numeric root finder decides whenever no exit on the range of K applies and the residual does not have the
+   same strict sign at both ends of the bracket.  In particular a chemical forced to the bottom (zb <> 0) disables
+   the "every K >= 1 -> phi = 1" exit, one forced to the top the "every K <= 1 -> phi = 0" exit. *)
+Lemma sign_exits_none (y0 y1 r : Q) : (y0 <= 0 <= y1 \/ y1 <= 0 <= y0) ->
+  (if (qltb y1 y0 && qltb 0 y1)%bool then 1 else
+   if (qltb y0 y1 && qltb 0 y0)%bool then 0 else
+   if (qltb y0 y1 && qltb y1 0)%bool then 1 else
+   if (qltb y1 y0 && qltb y0 0)%bool then 0 else r) = r.
+Proof.
+  intros S.
+  destruct (qltb y1 y0) eqn:A; destruct (qltb 0 y1) eqn:B; destruct (qltb y0 y1) eqn:C;
+    destruct (qltb 0 y0) eqn:D; destruct (qltb y1 0) eqn:E; destruct (qltb y0 0) eqn:G; cbn [andb];
+    try reflexivity; exfalso;
+    try apply qltb_true in A; try apply qltb_true in B; try apply qltb_true in C;
+    try apply qltb_true in D; try apply qltb_true in E; try apply qltb_true in G;
+    destruct S as [S|S]; lra.
+Qed.
+
+Lemma rr_solve_bracket_lemma root zs Ks za zb :
+  (all_le Ks one_plus && qzerob za)%bool = false ->
+  (all_ge Ks one_minus && qzerob zb)%bool = false ->
+  let y0 := rr_objective (if qzerob za then 0 else x_lo) zs Ks za zb in
+  let y1 := rr_objective (if qzerob zb then 1 else x_hi) zs Ks za zb in
+  (y0 <= 0 <= y1 \/ y1 <= 0 <= y0) ->
+  rr_solve root zs Ks za zb = root.
+Proof.
+  intros N0 N1 y0 y1 S. unfold rr_solve. rewrite N0, N1. cbv zeta.
+  apply sign_exits_none. exact S.
+Qed.
+
+Lemma forced_bottom_disables_exit Ks zb : ~ zb == 0 -> (all_ge Ks one_minus && qzerob zb)%bool = false.
+Proof. intros H. apply qzerob_false in H. rewrite H. apply andb_false_r. Qed.
+Lemma forced_top_disables_exit Ks za : ~ za == 0 -> (all_le Ks one_plus && qzerob za)%bool = false.
+Proof. intros H. apply qzerob_false in H. rewrite H. apply andb_false_r. Qed.
+
+(* the exits are right when they do fire: with every K <= 1 and nothing forced to the top the residual is
+   non-negative on (0, 1) (no top phase can form), with every K >= 1 and nothing forced to the bottom non-positive *)
+Lemma rr_exit0_sound_lemma phi zs Ks za zb :
+  length zs = length Ks -> 0 < phi < 1 ->
+  Forall (fun z => 0 <= z) zs -> Forall (fun k => 0 <= k <= 1) Ks -> za == 0 -> 0 <= zb ->
+  0 <= rr_objective phi zs Ks za zb.
+Proof.
+  intros L PH FZ FK ZA ZB. unfold rr_objective.
+  assert (A : (if qltb 0 za then za / phi else 0) == 0).
+  { destruct (qltb 0 za) eqn:E; [apply qltb_true in E; lra|reflexivity]. }
+  assert (B : 0 <= (if qltb 0 zb then zb / (1 - phi) else 0)).
+  { destruct (qltb 0 zb); [apply Qle_shift_div_l; lra|lra]. }
+  assert (S : 0 <= qsum (map2 Qdiv (map2 (fun z km => - z * km) zs (map (fun k => k - 1) Ks))
+                                   (map (fun km => 1 + phi * km) (map (fun k => k - 1) Ks)))).
+  { clear A B ZA ZB. revert Ks L FK; induction zs as [|z zs IH]; intros [|k Ks] L FK; simpl in *;
+      try (exfalso; discriminate L); try lra.
+    inversion FZ as [|? ? Z0 FZ']; subst. inversion FK as [|? ? K0 FK']; subst.
+    specialize (IH FZ' Ks ltac:(lia) FK').
+    assert (D : 0 < 1 + phi * (k - 1)) by nra.
+    assert (T : 0 <= - z * (k - 1) / (1 + phi * (k - 1))) by (apply Qle_shift_div_l; nra).
+    lra. }
+  rewrite A. lra.
+Qed.
+
+Lemma rr_exit1_sound_lemma phi zs Ks za zb :
+  length zs = length Ks -> 0 < phi < 1 ->
+  Forall (fun z => 0 <= z) zs -> Forall (fun k => 1 <= k) Ks -> zb == 0 -> 0 <= za ->
+  rr_objective phi zs Ks za zb <= 0.
+Proof.
+  intros L PH FZ FK ZB ZA. unfold rr_objective.
+  assert (B : (if qltb 0 zb then zb / (1 - phi) else 0) == 0).
+  { destruct (qltb 0 zb) eqn:E; [apply qltb_true in E; lra|reflexivity]. }
+  assert (A : 0 <= (if qltb 0 za then za / phi else 0)).
+  { destruct (qltb 0 za); [apply Qle_shift_div_l; lra|lra]. }
+  assert (S : qsum (map2 Qdiv (map2 (fun z km => - z * km) zs (map (fun k => k - 1) Ks))
+                              (map (fun km => 1 + phi * km) (map (fun k => k - 1) Ks))) <= 0).
+  { clear A B ZA ZB. revert Ks L FK; induction zs as [|z zs IH]; intros [|k Ks] L FK; simpl in *;
+      try (exfalso; discriminate L); try lra.
+    inversion FZ as [|? ? Z0 FZ']; subst. inversion FK as [|? ? K0 FK']; subst.
+    specialize (IH FZ' Ks ltac:(lia) FK').
+    assert (D : 0 < 1 + phi * (k - 1)) by nra.
+    assert (T : - z * (k - 1) / (1 + phi * (k - 1)) <= 0).
+    { assert (T' : 0 <= z * (k - 1) / (1 + phi * (k - 1))) by (apply Qle_shift_div_l; nra).
+      assert (E : - z * (k - 1) / (1 + phi * (k - 1)) == - (z * (k - 1) / (1 + phi * (k - 1)))) by (field; lra).
+      rewrite E. lra. }
+    lra. }
+  rewrite B. lra.
+Qed.
+
+Lemma as_valid_fraction_interior v : 0 < as_valid_fraction v < 1 -> as_valid_fraction v = v.
+Proof.
+  unfold as_valid_fraction. destruct (qltb v 0); [lra|]. destruct (qltb 1 v); [lra|]. reflexivity.
+Qed.
+
+Section PartitionReal.
+Variable rootf : vec -> vec -> Q -> Q -> Q.
+(* contract of flx.find_bracket + flx.IQ_interpolation: an interior value they return is a root of the residual *)
+Hypothesis rootf_root : forall zs Ks za zb,
+  0 < rootf zs Ks za zb < 1 -> rr_objective (rootf zs Ks za zb) zs Ks za zb == 0.
+
+Lemma pf_real_interior_root zs Ks za zb :
+  (negb (qzerob za) || negb (qzerob zb) || Nat.ltb 2 (length zs))%bool = true ->
+  0 < pf_real rootf zs Ks za zb < 1 ->
+  rr_objective (pf_real rootf zs Ks za zb) zs Ks za zb == 0.
+Proof.
+  unfold pf_real, binary_phase_fraction. intros P. rewrite P. intros I.
+  pose proof (as_valid_fraction_interior _ I) as AV. rewrite AV in I |- *. clear AV.
+  destruct (rr_solve_cases (rootf zs Ks za zb) zs Ks za zb) as [E|[E|E]]; rewrite E in I |- *; try lra.
+  apply rootf_root. exact I.
+Qed.
+
+(* partition driven by the real wrapper: an interior phase fraction is a root of the residual for exactly the
+   arguments partition hands over, so C20_partition_K_root applies *)
+Lemma partition_real_root_lemma feed top0 bot0 ids K topc botc strict phi :
+  let r := partition (pf_real rootf) feed top0 bot0 ids K topc botc strict in
+  p_phi r = Ok phi -> 0 < phi < 1 ->
+  let Fa := forced_sum feed topc in
+  let Fb := forced_sum feed botc in
+  let F := qsum (gather feed ids) + (Fa + Fb) in
+  ((2 < length ids)%nat \/ ~ Fa == 0 \/ ~ Fb == 0) ->
+  rr_objective phi (vdivs (gather feed ids) F) K (Fa / F) (Fb / F) == 0.
+Proof.
+  cbv zeta. unfold partition.
+  destruct (forced feed top0 bot0 topc) as [[top1 bot1] Fa'] eqn:F1.
+  destruct (forced feed bot1 top1 botc) as [[bot2 top2] Fb'] eqn:F2.
+  destruct (forced_spec _ _ _ _ _ _ _ F1) as (_ & _ & _ & _ & EA & _).
+  destruct (forced_spec _ _ _ _ _ _ _ F2) as (_ & _ & _ & _ & EB & _).
+  subst Fa' Fb'.
+  set (Fa := forced_sum feed topc). set (Fb := forced_sum feed botc).
+  set (F := qsum (gather feed ids) + (Fa + Fb)).
+  destruct (qzerob F) eqn:EF; cbn [p_phi]; [discriminate|]. apply qzerob_false in EF.
+  set (z := vdivs (gather feed ids) F).
+  destruct (qleb (pf_real rootf z K (Fa / F) (Fb / F)) 0) eqn:E1; cbn [p_phi].
+  { intros H; inversion H; subst; lra. }
+  destruct (qltb (pf_real rootf z K (Fa / F) (Fb / F)) 1) eqn:E2; cbn [p_phi].
+  2:{ intros H; inversion H; subst; lra. }
+  destruct (existsb qzerob _); cbn [p_phi]; [discriminate|].
+  destruct (c_err _); cbn [p_phi]; [discriminate|].
+  intros H PH COND. inversion H; subst phi.
+  apply pf_real_interior_root; [|exact PH].
+  assert (NZ : forall x, ~ x == 0 -> qzerob (x / F) = false).
+  { intros x Hx. apply qzerob_false. intros E. apply Hx.
+    assert (X : x == x / F * F) by (field; exact EF). rewrite X, E. ring. }
+  destruct COND as [C|[C|C]].
+  - unfold z. rewrite vdivs_length, gather_length.
+    destruct (Nat.ltb_spec 2 (length ids)); [apply orb_true_r|lia].
+  - rewrite (NZ _ C). reflexivity.
+  - rewrite (NZ _ C). simpl. apply orb_true_r || (rewrite orb_true_r; reflexivity).
+Qed.
+End PartitionReal.
